@@ -44,6 +44,8 @@ def run(ctx):
     r4(ctx)
     r5(ctx)
     r6(ctx)
+    rep.rule("C29.R8", "lever arms handed to the point protocol in export methods are relative vectors (no uncancelled origin-based position)", 2)
+    r8(ctx)
 
 
 def r1(ctx):
@@ -425,6 +427,98 @@ class _Offsets:
         return out, ncalls
 
 
+ORIGIN_BASED = __import__("re").compile(r"^r_O[A-Z]\w*$")
+
+
+def _origin_net(e, local, seen=frozenset(), depth=0):
+    """net number of origin-based position vectors (r_O*, X.r_OP(...), X.r_OQ(...)) that e adds up, treating products with
+    matrices / scalars as linear maps; None = not determinable.  0 means e is a RELATIVE vector."""
+    if depth > 12:
+        return None
+    if isinstance(e, ast.Constant):
+        return 0
+    if isinstance(e, ast.Name):
+        if e.id in local and len(local[e.id]) == 1 and e.id not in seen:
+            return _origin_net(local[e.id][0], local, seen | {e.id}, depth + 1)
+        return 1 if ORIGIN_BASED.match(e.id) else 0
+    if isinstance(e, ast.Attribute):
+        return 1 if ORIGIN_BASED.match(e.attr) else 0
+    if isinstance(e, ast.Subscript):
+        return _origin_net(e.value, local, seen, depth + 1)
+    if isinstance(e, ast.UnaryOp) and isinstance(e.op, (ast.USub, ast.UAdd)):
+        v = _origin_net(e.operand, local, seen, depth + 1)
+        return None if v is None else (-v if isinstance(e.op, ast.USub) else v)
+    if isinstance(e, ast.Call):
+        last = (dotted(e.func) or "").split(".")[-1]
+        if ORIGIN_BASED.match(last):
+            return 1
+        vals = [_origin_net(a, local, seen, depth + 1) for a in e.args]
+        if all(v == 0 for v in vals):
+            return 0
+        if last in ("array", "asarray", "copy") and len(vals) == 1:
+            return vals[0]
+        return None
+    if isinstance(e, ast.BinOp):
+        a, b = _origin_net(e.left, local, seen, depth + 1), _origin_net(e.right, local, seen, depth + 1)
+        if a is None or b is None:
+            return None
+        if isinstance(e.op, ast.Add):
+            return a + b
+        if isinstance(e.op, ast.Sub):
+            return a - b
+        if isinstance(e.op, (ast.Mult, ast.MatMult, ast.Div)):
+            if a == 0:
+                return b if not isinstance(e.op, ast.Div) else (0 if b == 0 else None)
+            if b == 0:
+                return a
+            return None
+    return None
+
+
+def r8(ctx):
+    """The B_r_CP argument of the point protocol (r_OP, v_P, ... of a body or frame) is a lever arm measured from THAT body's reference
+    point.  An origin-based position handed over as lever arm (r_OC instead of r_OC - r_OQ) gives the velocity v_Q + omega x r_OC of a point
+    that is displaced by the frame's own position: wrong as soon as the frame is away from the origin and rotates."""
+    rep = ctx.rep
+    model = ctx.model
+    n = 0
+    done = set()
+    for ci in model.all_classes():
+        if "export" not in ci.methods or ci.rel.startswith(("cardillo/visualization/", "cardillo/system.py")):
+            continue
+        fn = ci.methods["export"]
+        C = f"{ci.rel}:{ci.qual}.export"
+        if C in done:
+            continue
+        done.add(C)
+        local = {}
+        for x in walk_no_nested(fn):
+            if isinstance(x, ast.Assign) and len(x.targets) == 1 and isinstance(x.targets[0], ast.Name):
+                local.setdefault(x.targets[0].id, []).append(x.value)
+        for w in walk_no_nested(fn):
+            if not (isinstance(w, ast.Call) and isinstance(w.func, ast.Attribute)):
+                continue
+            m = w.func.attr
+            arg = next((k.value for k in w.keywords if k.arg == "B_r_CP"), None)
+            table = {**POS_M, **VEL_M}
+            if arg is None and m in table and len(w.args) > table[m]:
+                arg = w.args[table[m]]
+            if arg is None:
+                continue
+            n += 1
+            net = _origin_net(arg, local)
+            if net is None:
+                rep.ok("C29.R8", C, f"{norm_src(w.func)}(..., B_r_CP={norm_src(arg)[:50]}): composition not determinable (no verdict)", verdict="unknown", trivial=True)
+            elif net == 0:
+                rep.ok("C29.R8", C, f"{norm_src(w.func)}(..., B_r_CP={norm_src(arg)[:50]}): lever arm is a relative vector")
+            else:
+                rep.bad("C29.R8", C, arg, f"the lever arm `{norm_src(arg)}` handed to {norm_src(w.func)} contains {net:+d} origin-based position vector(s) that no other position cancels: "
+                        "it is measured from the origin O instead of from the body's / frame's own reference point, so the written velocity is that of a point displaced "
+                        "by the frame's position (wrong for a frame away from the origin that rotates)", f"{ci.rel}:{arg.lineno}")
+    if n < 2:
+        raise AnalysisError("C29.R8: fewer than 2 lever-arm arguments found in export methods")
+
+
 def r6(ctx):
     rep = ctx.rep
     model = ctx.model
@@ -506,7 +600,14 @@ MUTANTS += [
     dict(id="c29-r7-seed", canary=True, what="[seeded by sub-agent] RigidBody.export builds the rotation matrix without normalising the stored quaternion", file=RB,
          old="        ex, ey, ez = self.A_IB(sol_i.t, sol_i.q[self.qDOF]).T", new="        ex, ey, ez = Exp_SO3_quat(sol_i.q[self.qDOF][3:], normalize=False).T", expect="C29.R7"),
 ]
+S2P = "cardillo/contacts/sphere2plane.py"
+MUTANTS += [
+    dict(id="c29-r8-seed", canary=True, what="[seeded by sub-agent] Sphere2Plane.export: plane-side contact velocity with the origin-based contact position as lever arm", file=S2P,
+         old="                self.frame.v_P(sol_i.t, B_r_CP=A_IB2.T @ r_QC2),\n", new="                self.frame.v_P(sol_i.t, B_r_CP=A_IB2.T @ (r_OP - n * (g_N + self.r))),\n", expect="C29.R8"),
+]
 NEUTRAL = [
+    dict(id="c29-n-r8", canary=True, what="Sphere2Plane.export: plane-side lever arm written as a difference of two positions", file=S2P,
+         old="                self.frame.v_P(sol_i.t, B_r_CP=A_IB2.T @ r_QC2),\n", new="                self.frame.v_P(sol_i.t, B_r_CP=A_IB2.T @ (r_OP - n * (g_N + self.r) - self.r_OQ(sol_i.t))),\n"),
     dict(id="c29-n1", canary=True, what="__prepare_data uses getattr instead of __getattribute__", file=VTK,
          old="                new_solution[key] = solution.__getattribute__(key)[::frac]", new="                new_solution[key] = getattr(solution, key)[::frac]"),
     dict(id="c29-n2", what="Sphere2Plane.export: offset of the contact point hoisted into a local", file="cardillo/contacts/sphere2plane.py",
